@@ -3015,7 +3015,7 @@ QUERIES["C01"] = QUERIES.get("C01", []) + [q_c03_reconcile_validation] + [q for 
 QUERIES["C16"] = QUERIES.get("C16", []) + [q for q in _QC14 if q.__name__ == "q_c14_gating"] + [q_c17_register_step]
 
 from queries_c03remote import QUERIES_C03REMOTE  # noqa: E402
-for _p in ("C03", "C12"):
+for _p in ("C03", "C12", "C02"):
     QUERIES[_p] = QUERIES.get(_p, []) + QUERIES_C03REMOTE
 # C11: a failed ACCEPTED session frees its slot only if the failure is reported for its document: the acceptor records the
 # document from the moment the request was allowed (c10_bob_steps)
